@@ -32,6 +32,15 @@ fn run_targets(ctx: &mut Ctx, spaces: Vec<TargetSpace>, f: impl Fn(&Target, u64,
             l.states += 1;
             l.sample(|| t.short());
             f(&t, idx, all, l);
+            // every packet-builder configuration is also realised in the probed flavour (the intermediate
+            // builder queried after every call), whatever flavour the rotation gave it
+            if let Target::Pkt(p, var) = &t {
+                if !var.probe {
+                    let tp = Target::Pkt(p.clone(), crate::subject::build::Variant { probe: true, ..*var });
+                    l.states += 1;
+                    f(&tp, idx, false, l);
+                }
+            }
         });
     }
 }
@@ -41,7 +50,7 @@ fn common_setup(ctx: &mut Ctx, what: &str) {
         "{}; a case is one writer target (builder configuration x API flavour, FCI/chunk/item builder alone, compound member list, third-party writer), crossed with buffer lengths; non-trivial = size calculation succeeded, distinct by fingerprint of (target, announced size)",
         what
     );
-    ctx.bound("flavours", "borrowed/owned x {bare, PacketBuilder, one-member compound, compound of PacketBuilder} rotated over the index");
+    ctx.bound("flavours", "borrowed/owned x {bare, PacketBuilder, one-member compound, compound of PacketBuilder} rotated over the index; every packet-builder configuration additionally in the probed flavour (builder queried after every call)");
     ctx.bound("buffer lengths", "all 0..=n+8 for small spaces and n<=128; else {0,1,n-4,n-1,n,n+1,n+8} plus one index-rotated length");
     ctx.bound("compound member lists", ctx.tier.pick("length 0..=3 over a 20-kind menu", "length 0..=4 over a 20-kind menu"));
     ctx.assume("configurations outside the enumerated product spaces (DESIGN.md section 3) are not explored");
@@ -140,9 +149,8 @@ pub fn c17(ctx: &mut Ctx) {
             t.with_writer(&mut |w| c17_case(t, w, idx, all, &site, l));
         });
         if let Err(pi) = r {
-            // a panic is C06's verdict; here it only means nothing can be observed for this case
-            let _ = pi;
-            l.hit("writer-panicked (C06's domain)");
+            // a writer that unwinds has failed without saying what it did to the buffer
+            l.subject_panic(&format!("write:{}", site), &pi, || t.short());
         }
     });
     ctx.require_hit("success-checked");
@@ -175,15 +183,16 @@ fn c17_case(t: &Target, w: &dyn AnyWriter, idx: u64, all: bool, site: &str, l: &
         l.validated += 1;
         let ra = match guard::catch(|| w.write(&mut a)) {
             Ok(r) => r,
-            Err(_) => {
-                l.hit("writer-panicked (C06's domain)");
+            Err(pi) => {
+                // a write that ends by unwinding is a failed write; it may have left the buffer half written
+                l.subject_panic(&format!("write:{}", site), &pi, || format!("{} into {} bytes", t.short(), cap));
                 return;
             }
         };
         let rb = match guard::catch(|| w.write(&mut b)) {
             Ok(r) => r,
-            Err(_) => {
-                l.hit("writer-panicked (C06's domain)");
+            Err(pi) => {
+                l.subject_panic(&format!("write:{}", site), &pi, || format!("{} into {} bytes", t.short(), cap));
                 return;
             }
         };
@@ -232,8 +241,9 @@ pub fn c07(ctx: &mut Ctx) {
         let r = guard::catch(|| {
             t.with_writer(&mut |w| c07_case(t, w, &site, l));
         });
-        if r.is_err() {
-            l.hit("writer-panicked (C06's domain)");
+        if let Err(pi) = r {
+            // no image at all for a representable configuration
+            l.subject_panic(&format!("write:{}", site), &pi, || t.short());
         }
     });
     ctx.require_hit("image-equal");
